@@ -43,8 +43,32 @@ func (c *checker) diskOp(e *sim.Ev) {
 		c.deleteRange(s, e)
 	case "d.setu.CurrentTerm":
 		// C06.3: the durable term never decreases (memory follows the durable value)
+		// which setCurrentTerm call is this the write of? More than one call pending means that two
+		// goroutines of this incarnation are inside setCurrentTerm at once (the main loop and the
+		// transport's heartbeat fast path share no lock): their writes land in either order.
+		raced := false
+		if s.pendTermEp == e.Ep {
+			if len(s.pendTerm) > 1 {
+				for i := range s.pendTerm {
+					s.pendTerm[i].raced = true
+				}
+				c.cov("concurrent-term-writers")
+			}
+			for i, p := range s.pendTerm {
+				if p.v == e.A {
+					raced = p.raced
+					s.pendTerm = append(s.pendTerm[:i], s.pendTerm[i+1:]...)
+					break
+				}
+			}
+		}
 		if e.A < d.kvi["CurrentTerm"] {
-			c.violate("C06", "durable-term-decrease", e.Seq, "%s overwrote its durable term %d with %d", e.S, d.kvi["CurrentTerm"], e.A)
+			sig := "durable-term-decrease"
+			if raced {
+				sig = "durable-term-decrease-by-concurrent-writers"
+				s.termRaced = true
+			}
+			c.violate("C06", sig, e.Seq, "%s overwrote its durable term %d with %d", e.S, d.kvi["CurrentTerm"], e.A)
 		}
 		d.kvi["CurrentTerm"] = e.A
 		if e.A > s.maxTerm {
